@@ -5,8 +5,10 @@
       Since the repair of `clonesub-second-occurrence` the result no longer depends on Go's map iteration order.
     batch    : {policies, env (template + store), orders: [[ [name, [values…]] … ] …], impl} → "agree" | "differ …"
       the whole enumeration (`batchAuthorize`: staged partial evaluation, substitution, final authorization) for each
-      candidate variable order (batch sorts by list length; ties are unspecified); agrees if the implementation's
-      canonical result multiset equals the model's for one of the orders.
+      candidate variable order (batch sorts by list length, then by name — `bindingOrder` in Model/BatchOrder.lean;
+      the harness sends that one order since the repair of `batch-variable-order-error-message`, before it sent every
+      order consistent with the lengths); agrees if the implementation's canonical result multiset equals the
+      model's for one of the orders.
 -/
 import CedarGo.Driver.Ops.Core
 import CedarGo.Model.Batch
